@@ -58,7 +58,7 @@ func main() {
 	run.Set("delay_bound", D)
 	run.Set("server_deviation_bound", E)
 	run.Sample(map[string]any{"scenario": "S1-2callers", "choices": []int{0, 0, 0, 0, 0, 0, 0, 0, 0, 0, 0, 0, 0, 1}, "meaning": "caller0 is delayed after taking its msg_id; caller1 writes first"})
-	(&sess.XSpec{Run: run, Scenarios: scenarios(), Budget: budget,
+	(&sess.XSpec{Run: run, Scenarios: scenarios(), Budget: budget, FreeSet: run.ID,
 		Bounds:     func(*sess.Scenario) sched.Bounds { return sched.Bounds{Preemptions: -1, Delays: D, EnvDev: E} },
 		Judge:      judge,
 		NonTrivial: func(w *sess.World) bool { return len(w.Srv.Frames) >= 2 },
